@@ -561,13 +561,14 @@ func (jenny RawTypes) formatDefaultValue(fieldType ast.Type, resolvedFieldType a
 	listType := fieldType.DeepCopy()
 	listType.Nullable = false
 
-	// the items are literals of the list's item type: a list of lists holds `[]int64{1, 2}`, not `[]string{1, 2}`
-	formatItem := formatScalar
-	if itemType := resolvedFieldType.AsArray().ValueType; itemType.IsArray() {
-		formatItem = func(item any) string {
-			return jenny.formatDefaultValue(itemType, itemType, item)
-		}
+	// the items are literals of the list's item type: a list of lists holds `[]int64{1, 2}`, not
+	// `[]string{1, 2}`, a list of date-times holds time values
+	itemType := resolvedFieldType.AsArray().ValueType
+	resolvedItemType := jenny.typeFormatter.context.ResolveRefs(itemType)
+	formatted := make([]string, 0, len(items))
+	for _, item := range items {
+		formatted = append(formatted, jenny.formatDefaultValue(itemType, resolvedItemType, item))
 	}
 
-	return jenny.typeFormatter.formatType(listType) + "{" + strings.Join(tools.Map(items, formatItem), ", ") + "}"
+	return jenny.typeFormatter.formatType(listType) + "{" + strings.Join(formatted, ", ") + "}"
 }
